@@ -82,7 +82,7 @@ def match_known(pid, viol, known):
     for k in known:
         if k.get('status') != 'known' or pid not in k.get('properties', [k.get('property')]):
             continue
-        if k.get('oracle') != viol.get('oracle'):
+        if k.get('oracle') is not None and k.get('oracle') != viol.get('oracle'):
             continue
         facts = dict(viol.get('facts', {}))
         try:
